@@ -92,3 +92,8 @@ pub fn vx_expect<T>(o: Option<T>) -> (r: T)
     requires o is Some
     ensures r == o->Some_0
 { unimplemented!() }
+// `Value: Clone` (derived in the real source): the clone is an equal value
+impl Clone for Value {
+    #[verifier::external_body]
+    fn clone(&self) -> (r: Self) ensures r == *self { unimplemented!() }
+}
